@@ -153,6 +153,7 @@ struct st {
     bool released;
     uint64_t next_seq;
     uint64_t inputs, outputs_expected;
+    uint64_t agg_input_size;    /* aggregate: unit size announced by the accepted flow definition (0 = none) */
     unsigned gen_cc;            /* payload generators: continuity counter / position */
     bool gen_start;             /* the generated payload begins a unit (block start attribute) */
 };
@@ -225,6 +226,17 @@ static struct uref *make_dict(uint64_t seed)
 static void ctl_setattr(struct st *s)
 {
     uint64_t seed = vh_rand(R);
+    if (vh_chance(R, 1, 4)) {
+        /* no dictionary any more */
+        OP("setattr_set_dict(NULL)");
+        if (ubase_check(upipe_setattr_set_dict(s->pipe, NULL))) {
+            uref_free(s->setattr_dict);
+            s->setattr_dict = NULL;
+            s->setattr_set = false;
+            VH_COUNT("c20.setattr_cleared");
+        }
+        return;
+    }
     struct uref *d = make_dict(seed);
     OP("setattr_set_dict(%" PRIx64 ")", seed & 0xffff);
     if (ubase_check(upipe_setattr_set_dict(s->pipe, d))) {
@@ -420,6 +432,7 @@ static size_t gen_annexb(struct st *s, uint8_t *b, size_t max, struct uref *u)
 }
 
 /* generic numeric option setter: keeps the shadow, judges acceptance */
+static bool skip_rejected;
 static void ctl_nopt(struct st *s)
 {
     const struct desc *d = s->d;
@@ -427,9 +440,10 @@ static void ctl_nopt(struct st *s)
     int k = vh_below(R, d->nopts);
     const struct nopt *o = &d->opts[k];
     uint64_t v = o->gen(R);
+    int must = o->valid ? o->valid(v) : 1;
+    if (skip_rejected && must == 0) { VH_COUNT("c20.rejected_call_skipped"); return; }
     OP("%s.set_%s(%" PRIu64 ")", d->name, o->name, v);
     int err = o->set(s->pipe, v);
-    int must = o->valid ? o->valid(v) : 1;
     char key[96];
     if (must == 1 && !ubase_check(err)) { snprintf(key, sizeof(key), "c20:%s:%s:valid-value-rejected", d->name, o->name); vh_violation(key, "%s returned %d", opname, err); }
     if (must == 0 && ubase_check(err)) { snprintf(key, sizeof(key), "c20:%s:%s:invalid-value-accepted", d->name, o->name); vh_violation(key, "%s accepted", opname); }
@@ -483,6 +497,15 @@ static size_t gen_pcm24(struct st *s, uint8_t *b, size_t max, struct uref *u)
     return n;
 }
 
+/* aggregate takes the size of its input units from the flow definition when it is there */
+static void amend_agg(struct uref *fd)
+{
+    uint64_t seed = 0;
+    uref_attr_get_unsigned(fd, &seed, UDICT_TYPE_UNSIGNED, "x.defseed");
+    if (seed == 2) uref_block_flow_set_size(fd, 24);
+    if (seed == 3) uref_block_flow_set_size(fd, 188);
+}
+
 static const struct desc catalogue[] = {
     { "idem", upipe_idem_mgr_alloc, K_IDENTITY, "block.", NULL, NULL, NULL, x_identity, false, false, NULL, 0, true },
     { "null", upipe_null_mgr_alloc, K_SINK, "block.", NULL, NULL, NULL, NULL, false, false, NULL, 0, false },
@@ -497,7 +520,7 @@ static const struct desc catalogue[] = {
     { "nodemux", upipe_nodemux_mgr_alloc, K_IDENTITY, "block.", NULL, NULL, NULL, x_identity, false, false, NULL, 0, true },
     { "noclock", upipe_noclock_mgr_alloc, K_IDENTITY, "block.", NULL, NULL, NULL, x_identity, false, false, NULL, 0, true },
     { "dup", upipe_dup_mgr_alloc, K_DUP, "block.", NULL, NULL, NULL, x_identity, false, false, NULL, 0, true },
-    { "aggregate", upipe_agg_mgr_alloc, K_REGROUP, "block.", "pic.", NULL, ctl_nopt, NULL, false, false, opts_agg, 1, false },
+    { "aggregate", upipe_agg_mgr_alloc, K_REGROUP, "block.", "pic.", NULL, ctl_nopt, NULL, false, false, opts_agg, 1, false, NULL, NULL, amend_agg },
     { "chunk_stream", upipe_chunk_stream_mgr_alloc, K_REGROUP, "block.", "pic.", NULL, ctl_nopt, NULL, false, false, opts_chunk, 1, true },
     { "genaux", upipe_genaux_mgr_alloc, K_OTHER, "block.", NULL, NULL, ctl_genaux, NULL, true, false, NULL, 0, false },
     { "time_limit", upipe_time_limit_mgr_alloc, K_HOLD, "block.", NULL, NULL, ctl_nopt, x_identity, false, true, opts_tl, 1, true },
@@ -567,8 +590,9 @@ static struct uref *make_flow_def(const char *def, uint64_t seed)
 {
     struct uref *fd = uref_alloc_control(E.uref_mgr);
     uref_flow_set_def(fd, def);
-    if (S.d && S.d->amend_def && !strcmp(def, S.d->def)) S.d->amend_def(fd);
+
     if (seed) uref_attr_set_unsigned(fd, seed, UDICT_TYPE_UNSIGNED, "x.defseed");
+    if (S.d && S.d->amend_def && !strcmp(def, S.d->def)) S.d->amend_def(fd);
     return fd;
 }
 
@@ -712,7 +736,12 @@ static void op_set_flow_def(struct st *s)
     bool bad = d->bad_def && c == 0;
     bool same = s->flow_ok && c == 1;
     uint64_t seed = same ? s->cur_def_seed : 1 + vh_below(R, 3);
+    /* a foreign definition may carry attributes of its own (same random draws in every twin) */
+    bool bad_sized = bad && vh_chance(R, 1, 2);
+    uint32_t bad_size = bad ? 1 + vh_below(R, 300) : 0;
+    if (bad && skip_rejected) { VH_COUNT("c20.rejected_call_skipped"); return; }
     struct uref *fd = make_flow_def(bad ? d->bad_def : d->def, seed);
+    if (bad_sized) uref_block_flow_set_size(fd, bad_size);
     OP("set_flow_def(%s,%" PRIu64 ")", bad ? d->bad_def : d->def, seed);
     lab_ev(EV_DRIVER, D_SET_FLOW_DEF, bad, seed, 0, NULL, "");
     int err = upipe_set_flow_def(s->pipe, fd);
@@ -727,6 +756,7 @@ static void op_set_flow_def(struct st *s)
         vh_violation(key, "flow definition %s rejected (%d)", d->def, err); }
     s->flow_ok = true;
     s->cur_def_seed = seed;
+    s->agg_input_size = seed == 2 ? 24 : seed == 3 ? 188 : 0;
     { struct uref *fd2 = make_flow_def(d->def, seed); s->flowdef_hash = lab_dict_hash(fd2); uref_free(fd2); }
     VH_COUNT("op.set_flow_def");
 }
@@ -1012,6 +1042,7 @@ static void check_c05_async(struct st *s)
 /* ------------------------------------------------------------------ */
 static int only_pipe = -1;
 static bool with_getters;
+/* skip_rejected (declared above): third twin of C20, calls that must be rejected are not made at all */
 static struct vh_rng G;             /* getter sprinkling: independent of the history */
 
 /* --- C20: every getter of the descriptor, checked against the shadow --- */
@@ -1095,7 +1126,9 @@ static void ref_input(struct st *s, const uint8_t *b, size_t n)
         if (n == 0 || n > mtu) return;                       /* documented: dropped with a warning */
         if (ref_pending + n > mtu) ref_emit(ref_pending);
         ref_accept(b, n);
-        if (ref_pending + n > mtu) ref_emit(ref_pending);   /* anticipates a next unit of the same size */
+        /* anticipates the next unit: of the size announced by the flow definition, else of the same size */
+        size_t next = s->agg_input_size ? (size_t)s->agg_input_size : n;
+        if (ref_pending + next > mtu) ref_emit(ref_pending);
     } else {
         size_t mtu = (size_t)(s->optv[0] >> 32), align = (size_t)(s->optv[0] & 0xffffffff);
         size_t size = mtu / align * align;
@@ -1224,7 +1257,8 @@ static void exec_history(uint64_t seed, bool getters, struct hist_out *out)
         int c = vh_below(R, 100);
         if (c14) {
             if (c < 70) op_input(s);
-            else if (c < 85) { if (s->d->rand_ctl) s->d->rand_ctl(s); }
+            else if (c < 82) { if (s->d->rand_ctl) s->d->rand_ctl(s); }
+            else if (c < 85) op_set_flow_def(s);
             else if (c < 92) { if (op_flush(s)) ref_flush(s, false); }   /* only pipes that handle the flush command */
             else if (c < 94) { ref_flush(s, true); release_pipe(s); }
         } else if (c < 12) op_set_flow_def(s);
@@ -1602,21 +1636,31 @@ static void run_case(struct vh_rng *r)
         exec_history(seed, false, NULL);
     } else {
         /* differential twin run: same history with and without getters */
-        struct hist_out a = { 0 }, b = { 0 };
+        struct hist_out a = { 0 }, b = { 0 }, c = { 0 };
         exec_history(seed, false, &a);
         uint64_t h1 = case_hash;
         case_hash = 0;
         exec_history(seed, true, &b);
-        (void)h1;
+        /* third twin: the calls that must be rejected are not made at all */
+        skip_rejected = true;
+        case_hash = 0;
+        exec_history(seed, false, &c);
+        skip_rejected = false;
+        case_hash = h1;
         const char *name = S.d->name;
         char key[96];
         bool same = a.n == b.n && a.ndefs == b.ndefs;
         for (int i = 0; same && i < a.n; i++) same = a.o[i].sink == b.o[i].sink && a.o[i].seq == b.o[i].seq && a.o[i].hash == b.o[i].hash && a.o[i].size == b.o[i].size;
         for (int i = 0; same && i < a.ndefs; i++) same = a.defs[i] == b.defs[i];
-        int na = a.n, nb = b.n;
-        free(a.o); free(b.o); free(a.defs); free(b.defs);
+        bool same_c = a.n == c.n && a.ndefs == c.ndefs;
+        for (int i = 0; same_c && i < a.n; i++) same_c = a.o[i].sink == c.o[i].sink && a.o[i].seq == c.o[i].seq && a.o[i].hash == c.o[i].hash && a.o[i].size == c.o[i].size;
+        for (int i = 0; same_c && i < a.ndefs; i++) same_c = a.defs[i] == c.defs[i];
+        int na = a.n, nb = b.n, nc = c.n;
+        free(a.o); free(b.o); free(c.o); free(a.defs); free(b.defs); free(c.defs);
         if (!same) { snprintf(key, sizeof(key), "c20:%s:getter-changes-behaviour", name);
             vh_violation(key, "the same history delivers %d buffers without getters and %d with getters interleaved (or different contents / negotiations)", na, nb); }
+        if (!same_c) { snprintf(key, sizeof(key), "c20:%s:rejected-setter-changes-behaviour", name);
+            vh_violation(key, "the same history delivers %d buffers, but %d (or different contents / negotiations) when the calls that were rejected (foreign flow definition, invalid option value) are not made at all", na, nc); }
         VH_COUNT("c20.twin_runs_compared");
     }
     if (S.inputs >= 3) vh_nontrivial(case_hash);
